@@ -107,4 +107,39 @@ def colToOffset (s : List Char) : PyM Int :=
     if ls.length = 0 then .error .IndexError
     else .ok (colIndex ls)
 
+/-! ### the two regex matches as group-returning scanners (used by the translated definitions in
+`Gen/Translated.lean`; `cellToRowCol` / `colToOffset` above are shown equal to the compositions in
+`Lemmas/Translated.lean`) -/
+
+def takeDollar : List Char → List Char
+  | '$' :: _ => ['$']
+  | _ => []
+
+def isDigitCh (zeros : List Nat) (c : Char) : Bool := (digitVal zeros c).isSome
+
+/-- `range_parts.match(s)` for `(\$?)([A-Z]{1,3})(\$?)(\d+)`: the four groups, `none` if there is no match. -/
+def rangePartsMatch (zeros : List Nat) (s : List Char) : Option (Text × Text × Text × Text) :=
+  let s1 := dropDollar s
+  let ls := s1.takeWhile isUpper
+  let s2 := s1.dropWhile isUpper
+  if ls.length = 0 ∨ ls.length > 3 then none
+  else
+    let s3 := dropDollar s2
+    let ds := s3.takeWhile (isDigitCh zeros)
+    if ds = [] then none
+    else some (takeDollar s, ls, takeDollar s2, ds)
+
+/-- `col_parts.match(s)` for `(\$?)([A-Z]{1,3})`. -/
+def colPartsMatch (s : List Char) : Option (Text × Text) :=
+  let s1 := dropDollar s
+  let ls := (s1.takeWhile isUpper).take 3
+  if ls.length = 0 then none else some (takeDollar s, ls)
+
+/-- `int(s)` for a string of `\d` characters (any Unicode decimal digits); ValueError otherwise. -/
+def intOfDigits (zeros : List Nat) (s : List Char) : PyM Int :=
+  if s = [] then .error .ValueError
+  else if s.all (isDigitCh zeros) then
+    .ok (digitsToNat (s.filterMap (digitVal zeros)) : Int)
+  else .error .ValueError
+
 end NumbersModel.A1
